@@ -5,8 +5,7 @@
    _get_recurrence_params), as executable Gallina over an ABSTRACT VEVENT record.
    The text layer (the icalendar package: folding, escaping, parameter syntax, the order in
    which vRecur prints its keys) is not modelled: a VEVENT is the record of its property
-   values.  The code is followed statement by statement, as it is in /repo now (with the repairs I1-I5
-   of this round: EXDATE loading, wall-clock duration, DATE start for all-day UTC patterns,
+   values.  The code is followed statement by statement, as it is in /repo now (with the repairs of this round: I1-I7, M1: EXDATE loading, wall-clock duration, DATE start for all-day UTC patterns,
    1970-01-01 local DTSTART for time-of-day patterns, absent texts load as None).
    No proofs here (Proofs/IcalP.v). *)
 From CG Require Export Model.Recur.
@@ -224,9 +223,21 @@ Definition zone_eqb (a b : zone) : bool :=
 Definition stamp (z : zone) (t : Z) : dtval :=
   if zone_eqb z utc_zone then DUtc t else DTz z (utc_to_wall z t).
 
-(* "if val: event.add(prop, val)" *)
-Definition present (t : otext) : option N :=
-  match t with Some n => if N.eqb n 0 then None else Some n | None => None end.
+(* "if val is not None: event.add(prop, val)" *)
+Definition present (t : otext) : option N := t.
+
+(* the datetime an anchored pattern hands over as its start: fromtimestamp(anchor, zone) with the
+   hour / minute / second replaced by start_seconds (the pattern's own wall-clock time), kept only
+   if that still denotes the anchor ("int(wall.timestamp()) == anchor_timestamp": it does unless
+   start_seconds disagrees with the anchor's reading other than by a DST gap); as a wall-clock
+   reading.  replace() keeps the fold attribute of fromtimestamp's result. *)
+Definition own_wall (z : zone) (a sod : Z) : Z :=
+  let w0 := utc_to_wall z a in
+  let w1 := mk_wall (wall_day w0) sod in
+  if wall_to_utc z w1 (fold_of z a) =? a then w1 else w0.
+
+(* a wall-clock reading as icalendar prints it *)
+Definition stamp_w (z : zone) (w : Z) : dtval := if zone_eqb z utc_zone then DUtc w else DTz z w.
 
 (* ------------------------------------------------------------------------------------------ *)
 (* _interval_to_vevent; None = ValueError (timeline_to_file then skips the item)               *)
@@ -250,8 +261,8 @@ Definition to_vevent (it : item) : option vevent :=
        _phase_base(freq).replace(tzinfo=zone) + timedelta(seconds=start_seconds) *)
     let w0 := phase_base (r_freq r) * DAY + r_sod r in
     let dtstart := match r_anchor r with
-                   | Some a => stamp z a
-                   | None => if zone_eqb z utc_zone then DUtc w0 else DTz z w0
+                   | Some a => stamp_w z (own_wall z a (r_sod r))
+                   | None => stamp_w z w0
                    end in
     (* dtstart.date() / mdt.date() when all-day *)
     let dated (v : dtval) : dtval :=
@@ -394,16 +405,25 @@ Definition of_vevent (v : vevent) : option item :=
 
 (* ------------------------------------------------------------------------------------------ *)
 (* MemoryTimeline.add: _add_interval keeps a static event (no container metadata here);        *)
-(* _add_recurring re-creates the pattern from _get_recurrence_params, start = the anchor if    *)
-(* it "is not None" else the time of day, tz = str(pattern.zone)                               *)
+(* _add_recurring re-creates the pattern from _get_recurrence_params: an anchored one from a   *)
+(* datetime in its own tzinfo at its own wall-clock time, a time-of-day one from the int and   *)
+(* tz = str(pattern.zone)                                                                      *)
 
 Definition readd (it : item) : option item :=
   match it with
   | Static s e m => Some (Static s e m)
   | Pattern x m =>
     let r := x_rule x in
-    let start := match r_anchor r with Some a => a | None => r_sod r end in
-    match rp_init (parts_of x) start (r_dur r) (r_zone r) (r_exdates r) with
+    match (match r_anchor r with
+           | Some a =>
+             (* start = own_wall as a datetime in the pattern's tzinfo, tz = None;
+                replace(hour=start_seconds // 3600, ...) raises outside [0, DAY) *)
+             if (0 <=? r_sod r) && (r_sod r <? DAY)
+             then rp_init_dt (parts_of x) (own_wall (r_zone r) a (r_sod r)) a (r_dur r) (r_zone r)
+                             (r_exdates r)
+             else None
+           | None => rp_init (parts_of x) (r_sod r) (r_dur r) (r_zone r) (r_exdates r)
+           end) with
     | Some x' => Some (Pattern x' m)
     | None => None
     end
